@@ -4314,6 +4314,26 @@ fn main() {
         "samples": stats.samples(),
         "counters": stats.counters_json(),
     });
+    // The differences the oracle excuses BY RULE are genuine disagreements of the two codecs in
+    // the sense of the property ("both accept or both reject"): the new codec deliberately
+    // follows the RFCs more strictly. They are not repaired (a design decision of the new API)
+    // and therefore reported as known findings, one class per rule, listed in
+    // known_findings.jsonl; anything outside the rules is a violation as before.
+    for (n, sig, what) in [
+        (g(&WL_FORWARD), "C19|documented-difference|established-accepts-new-rejects|pointer-not-before-its-name-segment", "a compression pointer that does not point before the start of the name segment it ends is followed by the established codec and refused by the new one"),
+        (g(&WL_HEADER), "C19|documented-difference|established-accepts-new-rejects|pointer-into-the-header", "a compression pointer into the 12-octet header is followed by the established codec and refused by the new one"),
+        (g(&WL_RANGE), "C19|documented-difference|established-accepts-new-rejects|bounded-range-parser-needs-octets-beyond-its-range", "a name whose pointer target lies beyond the range a bounded new-codec parser was given is read by the established codec and refused by the new one"),
+        (g(&WL_NOCOMP), "C19|documented-difference|established-accepts-new-rejects|compressed-name-in-SRV-DNAME-RRSIG-NSEC-rdata", "a compressed name in SRV/DNAME/RRSIG/NSEC record data is decompressed by the established codec and refused by the new one (RFC 2782, 6672, 4034: MUST NOT be compressed)"),
+        (g(&WL_EMPTY_TXT), "C19|documented-difference|established-accepts-new-rejects|empty-TXT-rdata", "a TXT record with RDLENGTH 0 is accepted by the established codec and refused by the new one (RFC 1035 3.3.14: one or more character strings)"),
+    ] {
+        if n > 0 {
+            ctx.violation(sig, &format!("{what} ({n} cases in this run)"), json!({"part": "documented-difference", "signature": sig, "cases": n}));
+        }
+    }
+    for (k, n) in STRICTNESS.lock().unwrap().iter() {
+        let sig = format!("C19|documented-difference|typed-strictness|{k}");
+        ctx.violation(&sig, &format!("typed record data on which only one codec is strict: {k} ({n} cases in this run)"), json!({"part": "documented-difference", "signature": sig, "cases": n}));
+    }
     ctx.finish(
         cov,
         &[
